@@ -37,9 +37,12 @@ TERMS = {
     "b": {"t": ("Trapezoid", [0.0, 0.25, 0.5, 1.0]), "u": ("Ramp", [1.0, 0.0])},
     "d": {"t": ("Triangle", [0.0, 0.5, 1.0])},
     "o": {"p": ("Triangle", [0.0, 0.25, 0.5]), "q": ("Triangle", [0.5, 0.75, 1.0])},
+    "w": {"p": ("Triangle", [0.0, 0.25, 0.5]), "q": ("Triangle", [0.5, 0.75, 1.0])},
 }
 PRELOAD = [("p", 0.25), ("q", 0.5), ("p", 0.5)]
 OUT_AGGREGATION = "AlgebraicSum"
+# a second output variable WITHOUT an aggregation operator (plain sum): its term p is activated to 1.35, above 1
+PRELOAD_W = [("p", 0.75), ("q", 0.5), ("p", 0.6)]
 VOCAB = {v: set(ts) for v, ts in TERMS.items()}
 
 LEAVES5 = [
@@ -67,10 +70,13 @@ def build_engine():
 
     out = fl.OutputVariable("o", minimum=0.0, maximum=1.0, aggregation=getattr(fl, OUT_AGGREGATION)(),
                             terms=[term(n, s) for n, s in TERMS["o"].items()])
-    engine = fl.Engine("e", input_variables=[inp("a"), inp("b"), inp("d", enabled=False)], output_variables=[out],
+    out_w = fl.OutputVariable("w", minimum=0.0, maximum=1.0, aggregation=None, terms=[term(n, s) for n, s in TERMS["w"].items()])
+    engine = fl.Engine("e", input_variables=[inp("a"), inp("b"), inp("d", enabled=False)], output_variables=[out, out_w],
                        rule_blocks=[fl.RuleBlock("rb")])
     for name, degree in PRELOAD:
         out.fuzzy.terms.append(fl.Activated(out.term(name), degree, fl.Minimum()))
+    for name, degree in PRELOAD_W:
+        out_w.fuzzy.terms.append(fl.Activated(out_w.term(name), degree, None))
     return engine
 
 
@@ -82,6 +88,8 @@ def leaf_value(p, row) -> float:
         return RH.apply_chain(hedges, NAN)
     if var == "o":
         mu = RW.grouped(PRELOAD, OUT_AGGREGATION).get(term, 0.0)
+    elif var == "w":
+        mu = RW.grouped(PRELOAD_W, None).get(term, 0.0)
     else:
         x = row[0] if var == "a" else row[1]
         cls, params = TERMS[var][term]
@@ -106,6 +114,9 @@ def leaf_forms():
             forms.append(RG.prop(var, c, term))
         for c in (("any",), ("not", "any"), ("very", "not", "any"), ("somewhat", "any")):
             forms.append(RG.prop(var, c, None))
+    for c in ((), ("very",), ("somewhat",), ("not",)):  # an aggregated degree above 1 is read as it is (no clipping)
+        forms.append(RG.prop("w", c, "p"))
+        forms.append(RG.prop("w", c, "q"))
     return forms
 
 
@@ -253,8 +264,13 @@ def run_tree(acc: Acc, ctx: Ctx, n_leaves: int, tree, pairs) -> None:
     # rule weights (first rendering, first operator pair)
     style, text, _ = rules[0]
     conj, disj = pairs[0]
-    for w in WEIGHTS[1:]:
-        rule = fl.Rule.create(f"if {text} then o is p with {w}", engine)
+    for w in WEIGHTS[1:] + ["0.000", "ctor:0.0", "ctor:0.25", "ctor:2.0"]:
+        if w.startswith("ctor:"):  # the weight given to the Rule constructor (what the Python export of a rule does)
+            w = w[5:]
+            rule = fl.Rule(enabled=True, weight=float(w), antecedent=fl.Antecedent(text), consequent=fl.Consequent("o is p"))
+            rule.load(engine)
+        else:
+            rule = fl.Rule.create(f"if {text} then o is p with {w}", engine)
         for ri, row in enumerate(ROWS[:3]):
             ctx.a.value, ctx.b.value = row
             got = float(rule.activate_with(ctx.norms[conj], ctx.norms[disj]))
